@@ -10,11 +10,11 @@ import (
 // contain digits and underscores; the variable is followed by `.` or `:` and a typed prefix of a member name
 // (every prefix length, also the empty one); through the real completion handler every member whose name
 // starts with what is typed is offered (after a colon: every method).
-var c15eMembers = []string{"fetch_x", "fb9", "_priv", "Run", "bark_loud", "run2", "_hid"} // the last three are methods (function Dog:name())
+var c15eMembers = []string{"fetch_x", "fb9", "_priv", "Run", "info", "order", "bark_loud", "run2", "_hid", "done"} // the last four are methods (function Dog:name()); some names start with a reserved word
 
 func VerifRun_C15e() {
 	root := verifVFSRoot()
-	src := "---@class Dog\n---@field fetch_x fun()\n---@field fb9 number\n---@field _priv number\n---@field Run fun()\nlocal Dog = {}\nfunction Dog:bark_loud() end\nfunction Dog:run2() end\nfunction Dog:_hid() end\n\n---@type Dog\nlocal d = {}\n"
+	src := "---@class Dog\n---@field fetch_x fun()\n---@field fb9 number\n---@field _priv number\n---@field Run fun()\n---@field info string\n---@field order number\nlocal Dog = {}\nfunction Dog:bark_loud() end\nfunction Dog:run2() end\nfunction Dog:_hid() end\nfunction Dog:done() end\n---@type Dog\nlocal d = {}\n"
 	mi := verifConcretize(verifRange("member", 0, len(c15eMembers)-1))
 	plen := verifConcretize(verifRange("typed", 0, 9))
 	name := c15eMembers[mi]
@@ -25,7 +25,7 @@ func VerifRun_C15e() {
 	if verifBool("colon") {
 		sep = ":"
 	}
-	if sep == ":" && mi < 4 {
+	if sep == ":" && mi < 6 {
 		return // (after a colon the methods are asked for; whether function-typed fields belong there is left open)
 	}
 	typed := "d" + sep + name[:plen]
@@ -41,7 +41,7 @@ func VerifRun_C15e() {
 		TextDocument:   lsp.VersionedTextDocumentIdentifier{TextDocumentIdentifier: lsp.TextDocumentIdentifier{URI: uri}},
 		ContentChanges: []lsp.TextDocumentContentChangeEvent{{Text: src + line + "\n"}}})
 	ret, err := l.TextDocumentComplete(ctx, lsp.CompletionParams{TextDocumentPositionParams: lsp.TextDocumentPositionParams{
-		TextDocument: lsp.TextDocumentIdentifier{URI: uri}, Position: lsp.Position{Line: 12, Character: uint32(len(line))}}})
+		TextDocument: lsp.TextDocumentIdentifier{URI: uri}, Position: lsp.Position{Line: uint32(c15eLines(src)), Character: uint32(len(line))}}})
 	verifReach("asked")
 	if err != nil {
 		verifViolation("", "a member completion request with a typed prefix fails")
@@ -59,7 +59,7 @@ func VerifRun_C15e() {
 		if len(m) < plen || m[:plen] != name[:plen] {
 			continue
 		}
-		if sep == ":" && (m == "fetch_x" || m == "fb9" || m == "_priv" || m == "Run") {
+		if sep == ":" && (m == "fetch_x" || m == "fb9" || m == "_priv" || m == "Run" || m == "info" || m == "order") {
 			continue
 		}
 		has := false
@@ -74,4 +74,14 @@ func VerifRun_C15e() {
 			return
 		}
 	}
+}
+
+func c15eLines(s string) int {
+	n := 0
+	for i := 0; i < len(s); i++ {
+		if s[i] == '\n' {
+			n++
+		}
+	}
+	return n
 }
